@@ -70,6 +70,8 @@ func runC03(p *Prog, r *Report) {
 			}
 		}
 		r.Check(len(inst) == 1, R, "top-bit-set", inst.Pos(p), "reqID = id | 0x80000000", "the request id is installed without the top bit (a device could not tell it from a routing word)")
+		r.Describe("C03.12/id-end-marker", "every request id put on the wire has the top bit set: it is the word that ends the backtrace for REP, devices and the reply path")
+		r.Check(len(inst) == 1, "C03.12/id-end-marker", "req.SendMsg/top-bit-set-per-id", inst.Pos(p), "id | 0x80000000 for every request", "the request id is not marked with the top bit each time it is generated (a marker applied to the counter's seed is lost when the counter wraps): REP and devices then take payload words for routing data")
 		cn := sm.Ev("call", "req.(*context).cancel")
 		r.Check(len(inst) == 1 && len(cn) >= 1 && inst.DominatedBy(cn), R, "cancel-before-new-id", inst.Pos(p), "the previous request is cancelled before the new id is installed", "a new Send installs its id without first cancelling the previous request: the late reply to the old request can still be delivered")
 		hd := sm.Ev("store", "arg1.Header")
